@@ -9,8 +9,10 @@ from harness._h import opened_auditwall, pick
 from harness.C12_get_data import LazyBody, StubResponse, spec
 from vlib import gen
 
-SDL = "type Query { a: Int b: [String!] }"
-Q = "query GetIt { a }"
+SDL = "type Query { a: Int b: [String!] c(response: Int, data: Int, query: String, variables: Int): Int }"
+# the second operation declares variables named like the locals of the generated method (response, data, query, variables)
+Q = "query GetIt { a }\nquery Clash($response: Int, $data: Int, $query: String, $variables: Int) { a c(response: $response, data: $data, query: $query, variables: $variables) }"
+OPS = [("get_it", "GetIt"), ("clash", "Clash")]
 
 _PK = {}
 SETUP_ERROR = ""
@@ -33,13 +35,14 @@ except Exception as _e:
     SETUP_ERROR = f"{type(_e).__name__}: {_e}"
 
 
-def run_method(which: str, resp):
+def run_method(which: str, resp, op: int = 0):
     pkg = _PK[which]
     client = pkg.Client.__new__(pkg.Client)
+    meth = OPS[op][0]
     if which == "sync":
         client.execute = lambda **kw: resp
         try:
-            return ("ok", client.get_it())
+            return ("ok", getattr(client, meth)())
         except Exception as e:
             return ("exc", type(e).__name__)
 
@@ -47,7 +50,10 @@ def run_method(which: str, resp):
         return resp
 
     client.execute = execute
-    co = client.get_it()
+    try:
+        co = getattr(client, meth)()
+    except Exception as e:
+        return ("exc", type(e).__name__)
     try:
         co.send(None)
         return ("suspended",)
@@ -57,7 +63,7 @@ def run_method(which: str, resp):
         return ("exc", type(e).__name__)
 
 
-def expected(which: str, status, json_ok, body):
+def expected(which: str, status, json_ok, body, op: int = 0):
     pkg = _PK[which]
     want = spec(status, json_ok, body)
     if want[0] == "http":
@@ -67,18 +73,19 @@ def expected(which: str, status, json_ok, body):
     if want[0] == "multi":
         return ("exc", "GraphQLClientGraphQLMultiError")
     try:
-        return ("ok", pkg.GetIt.model_validate(want[1]))
+        return ("ok", getattr(pkg, OPS[op][1]).model_validate(want[1]))
     except Exception as e:
         return ("exc", type(e).__name__)
 
 
-def _check(which, status, json_ok, kind, has_data, data_kind, has_errors, n_err, e0, e1, extra):
+def _check(which, status, json_ok, kind, has_data, data_kind, has_errors, n_err, e0, e1, extra, op=False):
     if SETUP_ERROR:
         return False
     body = LazyBody(kind, has_data, data_kind, has_errors, n_err, e0, e1, extra)
     jo = True if json_ok else False
-    got = run_method(which, StubResponse(status, jo, body))
-    want = expected(which, status, jo, body)
+    oi = 1 if op else 0
+    got = run_method(which, StubResponse(status, jo, body), oi)
+    want = expected(which, status, jo, body, oi)
     return got == want
 
 
@@ -96,6 +103,22 @@ def check_async(status: int, json_ok: bool, kind: int, has_data: bool, data_kind
     post: _
     """
     return _check("asyn", status, json_ok, kind, has_data, data_kind, has_errors, n_err, e0, e1, extra)
+
+
+def check_sync_clash(status: int, json_ok: bool, kind: int, has_data: bool, data_kind: int, has_errors: bool, n_err: int, e0: int, e1: int, extra: bool) -> bool:
+    """
+    pre: 100 <= status <= 599
+    post: _
+    """
+    return _check("sync", status, json_ok, kind, has_data, data_kind, has_errors, n_err, e0, e1, extra, True)
+
+
+def check_async_clash(status: int, json_ok: bool, kind: int, has_data: bool, data_kind: int, has_errors: bool, n_err: int, e0: int, e1: int, extra: bool) -> bool:
+    """
+    pre: 100 <= status <= 599
+    post: _
+    """
+    return _check("asyn", status, json_ok, kind, has_data, data_kind, has_errors, n_err, e0, e1, extra, True)
 
 
 def twin_ok_reached(status: int, json_ok: bool, kind: int, has_data: bool, data_kind: int, has_errors: bool, n_err: int, e0: int, e1: int, extra: bool) -> bool:
